@@ -128,11 +128,11 @@ func (g *Gen) Next(t *rapid.T) *Op {
 	add("write", len(alive) > 0)
 	add("setRel", structural && len(alive) > 0)
 	add("removeEntity", structural && len(alive) > 0)
-	add("addBatch", !locked && nTyped > 0)
-	add("removeBatch", !locked && nTyped > 0)
-	add("exchangeBatch", !locked && nTyped > 0)
-	add("setRelBatch", !locked && nTyped > 0)
-	add("removeEntities", !locked && nTyped > 0)
+	add("addBatch", structural && nTyped > 0)
+	add("removeBatch", structural && nTyped > 0)
+	add("exchangeBatch", structural && nTyped > 0)
+	add("setRelBatch", structural && nTyped > 0)
+	add("removeEntities", structural && nTyped > 0)
 	add("filterNew", len(m.Filters) < 8)
 	add("filterReg", nTyped > 0)
 	add("query", nLive > 0 && m.OpenQ < 60)
